@@ -129,6 +129,8 @@ fn run_layout<T: Pixel>(acc: &mut Acc, idx: u64, c: &Case, cols: &[[f32; 3]], re
     }
     if brows == 3 {
         acc.bucket(if c.ss == (0, 0) { "4:4:4 config within budget" } else { "subsampled config within budget" }, 1);
+    } else if brows == 1 {
+        acc.bucket("large image (65,539 pixels) within budget", 1);
     } else {
         acc.bucket("one-block-wide column image within budget", 1);
     }
@@ -176,6 +178,33 @@ pub fn run(tier: Tier) -> Report {
         }
     });
     rep.acc.merge(acc);
+    // one large 4:4:4 image (65,539 pixels: lattice colours cycled, plus a dense dark ramp) per
+    // transfer characteristic and primaries set, 8 and 10 bit
+    {
+        let mut bigcols: Vec<[f32; 3]> = (0..BIG_SIZES[0]).map(|k| fine[(k * 7919) % fine.len()]).collect();
+        for k in 0..4096usize {
+            let v = 0.06 * k as f32 / 4096.0;
+            bigcols[k * 16 % BIG_SIZES[0]] = [v, v, v];
+            bigcols[(k * 16 + 5) % BIG_SIZES[0]] = [v, 0.0, v * 0.5];
+        }
+        let mut jobs = vec![];
+        for &t in SUPPORTED_TRANSFERS.iter() {
+            for &p in SUPPORTED_PRIMARIES.iter().filter(|p| **p != CP::ST428) {
+                for (n, wide) in [(8u8, false), (10, true)] {
+                    jobs.push(Case { m: MC::BT709, t, p, full: p == CP::BT709, n, wide, ss: (0, 0) });
+                }
+            }
+        }
+        let acc = par_chunks(jobs.len() as u64, 1, |acc, lo, _| {
+            let c = &jobs[lo as usize];
+            if c.wide {
+                run_layout::<u16>(acc, cs.len() as u64 + lo, c, &bigcols, false, 1)
+            } else {
+                run_layout::<u8>(acc, cs.len() as u64 + lo, c, &bigcols, false, 1)
+            }
+        });
+        rep.acc.merge(acc);
+    }
     let n444 = cs.iter().filter(|c| c.ss == (0, 0) && c.p != CP::ST428).count();
     let nss = cs.iter().filter(|c| c.ss != (0, 0) && c.p != CP::ST428).count();
     rep.bound = format!(
@@ -187,6 +216,7 @@ pub fn run(tier: Tier) -> Report {
     rep.guard("19600 physical 4:4:4 configs", n444 == 19600);
     rep.guard_bucket("4:4:4 config within budget");
     rep.guard_bucket("subsampled config within budget");
+    rep.guard_bucket("large image (65,539 pixels) within budget");
     rep
 }
 
